@@ -68,7 +68,7 @@ ODD = [{"kind": "int", "v": -1}, {"kind": "int", "v": -3}, {"kind": "str", "v": 
        {"kind": "str", "v": "a+b"}, {"kind": "str", "v": "m:n"}, {"kind": "str", "v": "{z}"}]
 
 
-def gen_param_design(rng, odd=False):
+def gen_param_design(rng, odd=False, force_int_str=False):
   T = {"kind": "bits_type", "n": rng.choice([4, 8, 16, 33])}
   groups = []
   for _ in range(rng.randrange(1, 4)):
@@ -116,7 +116,7 @@ def gen_param_design(rng, odd=False):
     if groups and rng.random() < 0.4:
       g = list(groups[-1])          # repeated sub-tree
     groups.append(g)
-  if not odd and groups and rng.random() < 0.6:
+  if not odd and groups and (rng.random() < 0.6 or force_int_str):
     # a pair of instances whose differing parameter values print alike: Bits values of two widths / a Bits value and an int
     v = rng.choice([0, 1, 3, 7])
     a, b = ({"kind": "bits_value", "n": 8, "v": v}, {"kind": "bits_value", "n": 5, "v": v}) if rng.random() < 0.6 else \
@@ -136,7 +136,11 @@ def gen_param_design(rng, odd=False):
       kd = rng.choice(["list", "tuple"])
       mk = lambda wa: {"kind": kd, "v": [{"kind": "struct_type", "name": "PT0", "fields": [["a", wa], ["b", 8]]}, {"kind": "int", "v": 1}]}
       a, b = mk(3), mk(4)
-    if rng.random() < 0.35:
+    if rng.random() < 0.2 or force_int_str:
+      # an int and the string of its digits (probe shape of the listed finding F-N13): str() of the two is the same text
+      v_ = rng.choice([0, 1, 7, 42])
+      a, b = {"kind": "int", "v": v_}, {"kind": "str", "v": str(v_)}
+    if rng.random() < 0.35 and not force_int_str:
       # parameter values that differ but HASH alike in CPython: hash(-1) == hash(-2)
       a, b = {"kind": "int", "v": -1}, {"kind": "int", "v": -2}
       pos = rng.choice([1, 1, 3])
@@ -733,7 +737,7 @@ def run_shard(sh):
   nspec = len(items)
   for c in range(sh.params["pdesigns"]):
     r = sh.rng("pd", c)
-    it = gen_param_design(r, odd=False)
+    it = gen_param_design(r, odd=False, force_int_str=(sh.params["part"] == 5 and c == 0))          # the F-N13 probe pair in every run
     items.append(it)
     for a_, g in enumerate(it["groups"]):
       for j_, cfg in enumerate(g):
@@ -799,8 +803,11 @@ def run_shard(sh):
           prev = name_params.setdefault(v["top_module"], eff)
           sh.count("module_name_injectivity_checks")
           if prev != eff:
-            sh.violation("instances-with-different-parameter-values-share-one-module-name", {"module": v["top_module"], "parameters_a": json.loads(prev),
-                         "parameters_b": json.loads(eff)}, case=("item", i))
+            pa, pb = json.loads(prev), json.loads(eff)
+            dif = [(x, y) for x, y in zip(pa, pb) if x != y]
+            alike = all(isinstance(x, dict) and isinstance(y, dict) and {x.get("kind"), y.get("kind")} == {"int", "str"} and str(x.get("v")) == str(y.get("v")) for x, y in dif)
+            sh.violation("instances-with-different-parameter-values-share-one-module-name", {"module": v["top_module"], "parameters_a": pa,
+                         "parameters_b": pb}, mechanism="int-and-string-parameter-values-print-alike" if dif and alike else None, case=("item", i))
         exp = expected_full_name(item)
         if exp is not None:
           sh.count("full_names_checked")
